@@ -8,6 +8,8 @@ From BU Require Import Lib.Bytes Lib.BytesFacts Lib.PySem Gen.Tables Gen.Src Mod
 Import ListNotations.
 Open Scope list_scope.
 Open Scope Z_scope.
+(* a rewritten source that translates but sends a tactic into a long search is reported as a broken proof in bounded time *)
+Set Default Timeout 900.
 
 Lemma update_nth_replace {A} (l : list A) i f : update_nth l i f = replace_nth l i f.
 Proof. reflexivity. Qed.   (* the two fixpoints have the same body *)
